@@ -38,6 +38,46 @@ type Store struct {
 	mu     sync.Mutex
 	Writes []string // keys committed, in order (logical clock in WriteAt)
 	OnPut  func(key string)
+	// write fault: the FaultAt-th block write opened from now on (0-based) accepts FaultCap bytes and then fails
+	// with a short write, the way storage that runs out of space does; its committer still commits what it has
+	// (temp-file-then-rename style). FaultAt < 0: no fault.
+	FaultAt, FaultCap int
+	opened            int
+	FaultHit          int
+}
+
+// SetWriteFault arms (at >= 0) or disarms (at < 0) the write fault.
+func (s *Store) SetWriteFault(at, capBytes int) {
+	s.mu.Lock()
+	s.FaultAt, s.FaultCap, s.opened = at, capBytes, 0
+	s.mu.Unlock()
+}
+
+func (s *Store) WriteFaultHits() int {
+	s.mu.Lock()
+	defer s.mu.Unlock()
+	return s.FaultHit
+}
+
+type limitWriter struct {
+	w    io.Writer
+	left int
+	s    *Store
+}
+
+var errNoSpace = fmt.Errorf("injected: no space left on device")
+
+func (l *limitWriter) Write(p []byte) (int, error) {
+	if len(p) <= l.left {
+		l.left -= len(p)
+		return l.w.Write(p)
+	}
+	n, _ := l.w.Write(p[:l.left])
+	l.left = 0
+	l.s.mu.Lock()
+	l.s.FaultHit++
+	l.s.mu.Unlock()
+	return n, errNoSpace
 }
 
 // lockedMem is a thread-safe in-memory block store (go-ipld-prime's memstore is not
@@ -91,7 +131,7 @@ func (m *lockedMem) snapshot() map[string][]byte {
 }
 
 func NewStore() *Store {
-	s := &Store{Mem: &lockedMem{Bag: map[string][]byte{}}}
+	s := &Store{Mem: &lockedMem{Bag: map[string][]byte{}}, FaultAt: -1}
 	s.Lsys = cidlink.DefaultLinkSystem()
 	s.Lsys.SetReadStorage(s.Mem)
 	s.Lsys.SetWriteStorage(s.Mem)
@@ -102,6 +142,14 @@ func NewStore() *Store {
 		if err != nil {
 			return nil, nil, err
 		}
+		s.mu.Lock()
+		if s.FaultAt >= 0 {
+			if s.opened == s.FaultAt {
+				w = &limitWriter{w: w, left: s.FaultCap, s: s}
+			}
+			s.opened++
+		}
+		s.mu.Unlock()
 		return w, func(l ipld.Link) error {
 			err := commit(l)
 			if err == nil {
